@@ -16,6 +16,7 @@ claimed.  Decided necessary conditions:
                            Rc<PathAwareValue> parameter — and nothing obtained from another query result (sibling agreement, 13 sites)
   R-C10-reported-value     the conversion of a value for machine-readable reports hands Int / Float to serde_json's i64 / f64 constructors
                            without a numeric cast (no saturation or rounding of the reported number)
+                           (R-C10-path-construction also: no list element / map entry of the loaded document is skipped by the conversion loops)
   R-C10-path-primitives    extend_str appends '/' + part to the parent's pointer and keeps the location; extend_usize /
                            extend_string delegate to it
 """
